@@ -27,9 +27,29 @@ func fieldType(pkg *types.Package, named *types.Named, k int) types.Type {
 		return types.NewPointer(types.NewAlias(types.NewTypeName(token.NoPos, pkg, "A", nil), named))
 	case 5:
 		return types.NewSlice(types.Typ[types.String])
+	case 7: // an anonymous struct written out
+		return c15Anon(pkg)
+	case 8: // an alias of that anonymous struct
+		return types.NewAlias(types.NewTypeName(token.NoPos, pkg, "P", nil), c15Anon(pkg))
+	case 9: // an anonymous struct with other field names: not identical to 7 and 8
+		return types.NewStruct([]*types.Var{
+			types.NewField(token.NoPos, pkg, "X", types.Typ[types.Int], false),
+			types.NewField(token.NoPos, pkg, "Z", types.Typ[types.Int], false),
+		}, nil)
+	case 10: // slice of the anonymous struct / of its alias
+		return types.NewSlice(c15Anon(pkg))
+	case 11:
+		return types.NewSlice(types.NewAlias(types.NewTypeName(token.NoPos, pkg, "P", nil), c15Anon(pkg)))
 	default: // the byte / uint8 alias pair
 		return types.Universe.Lookup("byte").Type()
 	}
+}
+
+func c15Anon(pkg *types.Package) *types.Struct {
+	return types.NewStruct([]*types.Var{
+		types.NewField(token.NoPos, pkg, "X", types.Typ[types.Int], false),
+		types.NewField(token.NoPos, pkg, "Y", types.Typ[types.Int], false),
+	}, nil)
 }
 
 func H_C15_identical_structs() {
@@ -46,7 +66,7 @@ func H_C15_identical_structs() {
 	}
 	emb := symx.Choose(2) == 1
 	// spellings of the first field's type in the two structs
-	pairs := [][2]int{{0, 0}, {1, 1}, {1, 2}, {2, 1}, {3, 4}, {4, 3}, {6, 6}, {5, 5}, {1, 3}, {0, 1}}
+	pairs := [][2]int{{0, 0}, {1, 1}, {1, 2}, {2, 1}, {3, 4}, {4, 3}, {6, 6}, {5, 5}, {1, 3}, {0, 1}, {7, 7}, {7, 8}, {8, 7}, {7, 9}, {10, 11}}
 	p := pairs[symx.Choose(len(pairs))]
 	mk := func(a, b string, ka int, tags []string) *types.Struct {
 		fa := types.NewField(token.NoPos, pkg1, a, fieldType(pkg1, named, ka), false)
